@@ -26,3 +26,9 @@ fn system_event_take_once_while_reacting()
     kani::cover!(!reacting, "not reacting: data alive but invisible");
     std::mem::forget(world);
 }
+
+/// introspection of the tracker for harnesses of sibling modules
+pub fn sysevt_prepared_len(t: &SystemEventAccessTracker) -> usize { t.prepared.len() }
+pub fn sysevt_prepared_at(t: &SystemEventAccessTracker, i: usize) -> (SystemCommand, Entity) { t.prepared[i] }
+pub fn sysevt_reacting(t: &SystemEventAccessTracker) -> bool { t.currently_reacting }
+pub fn sysevt_data_entity(t: &SystemEventAccessTracker) -> Entity { t.data_entity }
